@@ -44,6 +44,7 @@ class Agent:
         self.writable = True
         self.length_form = 0
         self.max_bulk_rows = 60
+        self.node_hook = None  # (node tree, part name) -> None; may set length forms
 
     # ------------------------------------------------------------------ MIB
     def _resort(self):
@@ -207,6 +208,8 @@ class Agent:
         if self.length_form:
             for n in node.walk():
                 n.form = self.length_form
+        if self.node_hook is not None:
+            self.node_hook(node, "message")
         out = node.encode()
         if self.bytes_hook is not None:
             out = self.bytes_hook(self, datagram, out)
@@ -270,6 +273,8 @@ class V3Agent(Agent):
         if self.msg_hook is not None:
             fields = self.msg_hook(self, req, fields)
         scoped = snmp.scoped_pdu_node(ctx_engine, ctx_name, pdu_node)
+        if self.node_hook is not None:
+            self.node_hook(scoped, "scoped")
         level = fields["flags"] & 3
         salt = b""
         payload = scoped
@@ -279,10 +284,14 @@ class V3Agent(Agent):
             payload = ber.n_str(bytes(ct))
         auth_ph = b"\x00" * 12 if level & 1 else b""
         sp = snmp.usm_params_node(fields["engine_id"], fields["boots"], fields["time"], fields["user"], auth_ph, bytes(salt))
+        if self.node_hook is not None:
+            self.node_hook(sp, "usm")
         node = snmp.v3_msg_node(fields["msg_id"], self.max_size, fields["flags"], 3, sp.encode(), payload)
         if self.length_form:
             for n in node.walk():
                 n.form = self.length_form
+        if self.node_hook is not None:
+            self.node_hook(node, "message")
         out = node.encode()
         if level & 1:
             out = usm.sign(user.auth[0], user.auth_key(self.engine_id), out)
